@@ -523,6 +523,29 @@ func evalIntSet(v ssa.Value, depth int) map[int64]bool {
 		return evalIntSet(x.X, depth+1)
 	case *ssa.ChangeType:
 		return evalIntSet(x.X, depth+1)
+	case *ssa.Call:
+		// len of a constant byte string, or of a package-level []byte variable initialised with one (and, by the
+		// layout rules' own premise, never reassigned)
+		if bi, ok := x.Call.Value.(*ssa.Builtin); ok && bi.Name() == "len" && len(x.Call.Args) == 1 {
+			if sv, ok := evalBytes(x.Call.Args[0]); ok {
+				return map[int64]bool{int64(len(sv)): true}
+			}
+			if u, ok := x.Call.Args[0].(*ssa.UnOp); ok && u.Op == token.MUL {
+				if g, ok := u.X.(*ssa.Global); ok && g.Pkg != nil {
+					if initFn := g.Pkg.Func("init"); initFn != nil {
+						for _, b := range initFn.Blocks {
+							for _, in := range b.Instrs {
+								if st, ok := in.(*ssa.Store); ok && st.Addr == ssa.Value(g) {
+									if sv, ok := evalBytes(st.Val); ok {
+										return map[int64]bool{int64(len(sv)): true}
+									}
+								}
+							}
+						}
+					}
+				}
+			}
+		}
 	}
 	return nil
 }
